@@ -471,10 +471,16 @@ pub fn build_frag(cfg: &FragCfg) -> (Option<FragmentedMuxer>, Res) {
 }
 
 pub fn run_frag(case: &FragCase) -> FragExec {
+    run_frag_with(case, &mut |_| {})
+}
+
+/// `before_op(i)` runs before operation i (the clock scenario moves the simulated clocks there).
+pub fn run_frag_with(case: &FragCase, before_op: &mut dyn FnMut(usize)) -> FragExec {
     install_panic_hook();
     let (mut m, build) = build_frag(&case.cfg);
     let mut out = Vec::with_capacity(case.ops.len());
-    for op in &case.ops {
+    for (op_index, op) in case.ops.iter().enumerate() {
+        before_op(op_index);
         let mux = match m.as_mut() {
             Some(x) => x,
             None => {
